@@ -124,6 +124,10 @@ func run(args []string, real bool) int {
 			// mostly not byte aligned
 			gopts.N0 = 1 + r.Intn(40)
 			gopts.N1 = 513 + r.Intn(900)
+			if (i/6)%3 == 2 {
+				// the Chou-Orlandi sessions go beyond 1024 transfers in one batch
+				gopts.N1 = 1025 + r.Intn(400)
+			}
 			if gopts.N1%8 == 0 {
 				gopts.N1 += 1 + r.Intn(7)
 			}
